@@ -227,7 +227,8 @@ def run(ctx: Ctx) -> int:
                          " ".join(f"{'XYZ'[int(rng.integers(0, 3))]}{int(q)}" for q in qs))
         post = ["M " + " ".join(map(str, range(nq)))] if rng.random() < 0.6 else ["MX " + " ".join(map(str, range(nq)))]
         spare = nq   # a qubit not used by the chain
-        ins = [["TICK"], ["SHIFT_COORDS(0, 1)"], [f"QUBIT_COORDS(1, 2) {spare}"], [f"I {int(rng.integers(0, nq))}"], [f"H {spare}"], ["TICK", f"X {spare}"]][int(rng.integers(0, 6))]
+        ins = [["TICK"], ["SHIFT_COORDS(0, 1)"], [f"QUBIT_COORDS(1, 2) {spare}"], [f"I {int(rng.integers(0, nq))}"], [f"H {spare}"], ["TICK", f"X {spare}"],
+               [f"X_ERROR(0.25) {spare}"], [f"DEPOLARIZE1(0.125) {spare}"], [f"Z_ERROR(0.5) {spare}", "TICK"]][int(rng.integers(0, 9))]
         k = int(rng.integers(1, len(links)))
         text = "\n".join(pre + links + post)
         text2 = "\n".join(pre + links[:k] + ins + links[k:] + post)
